@@ -229,7 +229,7 @@ def entryRes (cfg : Cfg) (igL : List Anc) (depth : Nat) (p : Path) (name : Name)
   | .ok (dent, pushed) =>
     match dent with
     | .dir d _ =>
-      if skipEntry cfg igL p name dent then ([], !pushed)
+      if skipEntry cfg igL p name dent then ([], false)
       else if pushed && depthOk cfg (depth + 1) then (.entry p :: outC d, false)
       else ([.entry p], false)
     | _ => if skipEntry cfg igL p name dent then ([], false) else ([.entry p], false)
@@ -257,7 +257,11 @@ theorem walkLoop_dir (stack : List Frame) (sp : List Nat) (dd : Dent) (info : Di
     walkLoop cfg forest (m + 1) (mkIt cfg rd stack sp dd.depth (some (.ok dd))) ig acc =
       if (decide (dd.depth ≠ rootDepth) && skipEntry cfg ig dd.path (dd.path.getLast?.getD 0) dd.view) = true then
         walkLoop cfg forest m
-          (mkIt cfg rd (WdS.pop cfg.followLinks ⟨stack, sp⟩).stack (WdS.pop cfg.followLinks ⟨stack, sp⟩).sp
+          (mkIt cfg rd
+            (if !(cfg.sameFs && decide (dd.depth ≠ rootDepth) && !devOk rd info.dev) then
+              WdS.pop cfg.followLinks ⟨stack, sp⟩ else ⟨stack, sp⟩).stack
+            (if !(cfg.sameFs && decide (dd.depth ≠ rootDepth) && !devOk rd info.dev) then
+              WdS.pop cfg.followLinks ⟨stack, sp⟩ else ⟨stack, sp⟩).sp
             (dd.depth + 1) none) ((info.ino, info.ign) :: ig) acc
       else
         walkLoop cfg forest m (mkIt cfg rd stack sp (dd.depth + 1) none) ((info.ino, info.ign) :: ig)
@@ -340,7 +344,17 @@ theorem simE_gen (pp : Path) (k : Node) (ks : List Node) (below : List Frame) (s
         intro m
         rw [Nat.add_assoc, Nat.add_comm 1 m, hri m, hdirstep, hsk]
         simp only [if_true, entryRes, hsk]
-        cases pushed <;> simp [WdS.pop, WdS.push, popSp, mkIt] <;> (cases cfg.followLinks <;> simp)
+        have hpush : pushed = (!cfg.sameFs || devOk rd d.dev) := by
+          unfold wdHandle at hw
+          cases hf : followEntry cfg forest sp (pp ++ [k.name]) k with
+          | error e => simp only [hf] at hw; cases hw
+          | ok v =>
+            simp only [hf] at hw
+            cases v <;> simp at hw
+            rw [← hw.2, hw.1.1]
+        subst hpush
+        cases cfg.sameFs <;> cases devOk rd d.dev <;> simp [WdS.pop, WdS.push, popSp, mkIt] <;>
+          (cases cfg.followLinks <;> simp)
       | false =>
         simp only [hsk, Bool.false_eq_true, if_false] at hdirstep
         cases hpd : (pushed && depthOk cfg (below.length + 1)) with
